@@ -845,6 +845,9 @@ func accessorOnly(text string) bool {
 		switch body[i] {
 		case '[':
 			depth++
+			if depth > 1 {
+				return false // a subscript applied inside a subscript is an expression, not a literal or last-relative bound
+			}
 		case ']':
 			depth--
 		default:
